@@ -143,7 +143,10 @@ func (corSelf *CorDef[T]) YieldFrom(target *CorDef[T], in T) T {
 		return result
 	}
 
-	target.receive(corSelf, in)
+	if !target.receive(corSelf, in) {
+		// The target is already done: nobody will ever answer
+		return result
+	}
 
 	// fmt.Println(corSelf, "Wait for", "result")
 	result, _ = <-corSelf.resultCh
@@ -152,14 +155,17 @@ func (corSelf *CorDef[T]) YieldFrom(target *CorDef[T], in T) T {
 	return result
 }
 
-func (corSelf *CorDef[T]) receive(cor *CorDef[T], in T) {
+func (corSelf *CorDef[T]) receive(cor *CorDef[T], in T) bool {
+	received := false
 	corSelf.doCloseSafe(func() {
-		if corSelf.opCh != nil {
+		if corSelf.opCh != nil && !corSelf.IsDone() {
 			// fmt.Println(corSelf, "Wait for", "receive", cor, in)
 			corSelf.opCh <- &CorOp[T]{cor: cor, val: in}
+			received = true
 			// fmt.Println(corSelf, "Wait for", "receive", "done")
 		}
 	})
+	return received
 }
 
 // YieldFromIO Yield from a given MonadIO
@@ -198,6 +204,19 @@ func (corSelf *CorDef[T]) close() {
 	}
 	if corSelf.opCh != nil {
 		close(corSelf.opCh)
+		// Requests nobody will serve any more: release their callers with the zero value
+		for op := range corSelf.opCh {
+			if op != nil && op.cor != nil && op.cor != corSelf {
+				cor := op.cor
+				cor.doCloseSafe(func() {
+					var zero T
+					select {
+					case cor.resultCh <- zero:
+					default:
+					}
+				})
+			}
+		}
 	}
 	corSelf.closedM.Unlock()
 }
